@@ -1,5 +1,5 @@
 (* One entry point for the harness: request (list Z) -> reply (list Z). *)
-From JP Require Import Base.Json Extract.Wire Extract.WireAst Model.Slice Spec.Slice Model.Ast Model.Eval Spec.Sem Spec.Compare Model.Tokens Model.Lex Model.PyFloat Model.Parse Model.Api Spec.Rfc9535Grammar Spec.BuiltinGrammar Spec.Types Spec.StringLit Model.Position Spec.Position Model.Serialize Spec.NormPath Model.History Model.Descent Model.NdVisit Model.NdEval Model.NdEval2 Spec.Nondet Spec.NondetQ Spec.IRegexp Model.MapRe Spec.Printable.
+From JP Require Import Base.Json Extract.Wire Extract.WireAst Model.Slice Spec.Slice Model.Ast Model.Eval Spec.Sem Spec.Compare Model.Tokens Model.Lex Model.PyFloat Model.Parse Model.Api Spec.Rfc9535Grammar Spec.BuiltinGrammar Spec.Types Spec.StringLit Model.Position Spec.Position Model.Serialize Spec.NormPath Model.History Model.Descent Model.NdVisit Model.NdEval Model.NdEval2 Model.NdGraph Spec.Nondet Spec.NondetQ Spec.IRegexp Model.MapRe Spec.Printable.
 
 Definition iota_json (len : Z) : list json := map (fun k => JNum (NInt (Z.of_nat k))) (seq 0 (Z.to_nat len)).
 Definition enc_sel (r : list (Z * json)) : list Z := enc_list (fun p => fst p :: enc_json (snd p)) r.
@@ -199,6 +199,14 @@ Definition op_graph (r : list Z) : list Z :=
   match dec_nat r with Some (limit, r0) =>
   match dec_list dec_cell r0 with Some (g, _) => enc_result (enc_list enc_loc) (gdesc_wild g limit)
   | None => bad_request end | None => bad_request end.
+(* [25; loop bound; limit; script; graph] -> _nondeterministic_visit from cell 0 of the graph (data that may be self-referential), driven by the script:
+   the locations in the order visited, or the error *)
+Definition op_gnd_visit (r : list Z) : list Z :=
+  match dec_nat r with Some (fuel, r0) =>
+  match dec_nat r0 with Some (limit, r1) =>
+  match dec_list dec_z r1 with Some (script, r2) =>
+  match dec_list dec_cell r2 with Some (g, _) => enc_result (enc_list (fun n : gnode => enc_loc (fst n))) (gnd_visit g fuel limit script ([], 0%nat))
+  | None => bad_request end | None => bad_request end | None => bad_request end | None => bad_request end.
 (* [116; value; order] -> is the visiting order valid?   [117; value] -> every valid order *)
 Definition op_valid_order (r : list Z) : list Z :=
   match dec_json r with Some (v, r0) =>
@@ -275,6 +283,7 @@ Definition dispatch (req : list Z) : list Z :=
   | 120 :: r => op_nd_results r
   | 121 :: r => op_in_bf r
   | 11 :: r => op_graph r
+  | 25 :: r => op_gnd_visit r
   | 12 :: r => op_history r
   | 15 :: r => op_map_re r
   | 19 :: r => op_errpos r
